@@ -87,7 +87,10 @@ class DDLParser(Parser, Dialects):
         t_tag = self.parse_tags_symbols(t)
         if t_tag:
             return t_tag
-        if t.value.startswith("ARRAY"):
+        if t.value.startswith("ARRAY") and not (
+            t.value[5:6].isalnum() or t.value[5:6] == "_"
+        ):
+            # ARRAY, ARRAY<..>, ARRAY[..] - not a name that merely begins like it
             t.type = "ARRAY"
             return t
         elif self.lexer.is_like:
